@@ -506,7 +506,7 @@ def run(pid, tier, seed, replay=None):
         print("replay file lists the operations; re-run them with:", rp)
         return 0
     kinds = ["Fourier"] if pid == "C17" else ["RandMeth", "Fourier", "IncomprRandMeth"]
-    classes = ["Gaussian", "Exponential"] if not thorough else ["Gaussian", "Exponential", "Stable", "Matern"]
+    classes = ["Gaussian", "Exponential"] if not thorough else ["Gaussian", "Exponential", "Stable"]
     with tlc.Scratch() as sc:
         os.makedirs(sc.path("sim"), exist_ok=True)
         jobs = []
@@ -558,7 +558,7 @@ def run(pid, tier, seed, replay=None):
                     if kind == "IncomprRandMeth" and cls != classes[0] and not thorough:
                         continue
                     work.append(("%s/%s/%d" % (kind, cls, dim), kind, sk, cls, dim, sc.dir,
-                                 None if thorough else (300 if pid == "C17" else 120), rng.randrange(2**31), tier))
+                                 (1000 if thorough else (300 if pid == "C17" else 120)), rng.randrange(2**31), tier))
         import multiprocessing as mp
 
         with mp.get_context("fork").Pool(14) as pool:
